@@ -26,6 +26,17 @@ class Echo:
         self.model = ctx.model
         self.cls = self.model.cls(L + ':LuaASTEchoWriter')
 
+    @staticmethod
+    def _fields_of(build):
+        """field names a builder sets (dry run on a recording helper)"""
+        class Dry:
+            def tok(self, kind, data):
+                return (kind, data)
+
+            def child(self, specs):
+                return ('child', len(specs))
+        return list(build(Dry()).keys())
+
     def run(self, nodetype, build, spaced=False):
         """build(h) -> (node fields dict, token spec list); h gives
         h.child(n_tokens, spec...) and h.tok(kind, data)
@@ -390,6 +401,9 @@ def report(ctx, res, rule='R-C09-agree'):
         res.info(rule, PARSER + ':Parser._stat', 'short-if with an empty '
                  'else', 'the statement that stores the else pair of a '
                  'short-if was not found: the shape is not evaluated')
+    from .c09 import _schema
+    schema = _schema(ctx)
+    skipped = []
     try:
         for (nt, what, build) in cases:
             m = ctx.model.lookup_method(ev.cls, '_walk_' + nt)
@@ -398,6 +412,14 @@ def report(ctx, res, rule='R-C09-agree'):
                              'handler', 'missing')
                 continue
             ent = by_type.setdefault(nt, [m, 0, []])
+            if schema is not None:
+                # the stand-in node is only a node of this tree if its
+                # fields are the fields the parser declares for the type
+                probe = Echo._fields_of(build)
+                decl = schema.get(nt)
+                if decl is None or set(probe) - {'short_if'} != set(decl):
+                    skipped.append('{} ({})'.format(nt, what))
+                    continue
             for spaced in (False, True):
                 r = ev.run(nt, build, spaced=spaced)
                 ent[1] += 1
@@ -417,7 +439,13 @@ def report(ctx, res, rule='R-C09-agree'):
         res.info(rule, L + ':LuaASTEchoWriter', 'list handlers evaluated',
                  'not followed: ' + str(e)[:140])
         return False
+    if skipped:
+        res.info(rule, L + ':LuaASTEchoWriter', 'stand-in shapes whose '
+                 'fields are not the fields the parser declares',
+                 'not evaluated: ' + ', '.join(skipped[:6]))
     for nt, (m, n, bad) in sorted(by_type.items()):
+        if not n:
+            continue
         res.check(not bad, rule, m.qual,
                   '{}: every token of the node is echoed once, in order, for '
                   '0-3 elements (evaluated)'.format(nt),
